@@ -69,6 +69,18 @@ def run_real(case):
             b = go(loop)
             not_done = [i for i, f in enumerate(pend) if f is not None and not f.done()]
             errs = [f.exception() for f in pend if f is not None and f.done() and f.exception()]
+    elif case["mode"] == "thread":
+        # blocking emits against the real background-thread loop (sync())
+        b = specs.build(spec, log, asynchronous="thread")
+        for idx, e in enumerate(case["events"]):
+            if e[0] == "e":
+                b.nodes[specs.entry_ids(spec)[e[1]]].emit(E(e[2], {idx}))
+            else:
+                b.nodes[e[1]].flush()
+        for s_ in b.nodes:
+            if type(s_).__name__ == "sink":
+                s_.destroy()
+        not_done, errs = [], []
     else:
         b = go(None)
         not_done, errs = [], []
@@ -151,4 +163,20 @@ def execute(case):
     return Result(v, nontrivial=(fanout or fanin or stateful) and busy, classes=classes)
 
 
-PARTS = [Part("pipelines", case_strategy, execute, quick=2400, thorough=12000)]
+@st.composite
+def threaded_strategy(draw, tier="quick"):
+    # no zip: a blocking emit into a starved zip input legitimately blocks for ever
+    spec = draw(specs.pipeline_spec(kinds=[k for k in specs.SYNC_KINDS if k != "zip"], max_nodes=7,
+                                    feedback=False))
+    ents = specs.entry_ids(spec)
+    cols = specs.collect_ids(spec)
+    ev = st.tuples(st.just("e"), st.integers(0, len(ents) - 1), st.integers(0, 5))
+    if cols:
+        ev = st.one_of(ev, ev, ev, st.tuples(st.just("f"), st.sampled_from(cols)))
+    events = draw(st.lists(ev, min_size=1, max_size=15))
+    return {"spec": spec, "events": [list(e) for e in events], "mode": "thread"}
+
+
+PARTS = [Part("pipelines", case_strategy, execute, quick=2400, thorough=12000),
+         Part("threaded", threaded_strategy, execute, quick=120, thorough=600, shards=4,
+              quick_shards=2)]
